@@ -174,6 +174,13 @@ func execOp(line string) string {
 		return execUDFSrv(t[1:])
 	case "udfwrite":
 		return execUDFWrite(t[1:])
+	case "udfrr":
+		return execUDFRR(t[1:])
+	case "udftask":
+		if len(t) != 3 {
+			return "badop"
+		}
+		return execUDFTask(t[1], t[2])
 	case "live":
 		return execLive(t[1], t[2])
 	case "jsoncover":
@@ -622,9 +629,9 @@ func execUDFWrite(kinds []string) string {
 
 type udfService struct{ sink *kit.SinkUDFService }
 
-func (s *udfService) List() []string { return append(s.sink.List(), "boom") }
+func (s *udfService) List() []string { return append(s.sink.List(), "boom", "peer") }
 func (s *udfService) Info(name string) (udf.Info, bool) {
-	if name == "boom" {
+	if name == "boom" || name == "peer" {
 		return udf.Info{Wants: agent.EdgeType_STREAM, Provides: agent.EdgeType_STREAM, Options: map[string]*agent.OptionInfo{}}, true
 	}
 	return s.sink.Info(name)
@@ -632,6 +639,9 @@ func (s *udfService) Info(name string) (udf.Info, bool) {
 func (s *udfService) Create(name, taskID, nodeID string, d udf.Diagnostic, abortCallback func()) (udf.Interface, error) {
 	if name == "boom" {
 		return boomUDF{}, nil
+	}
+	if name == "peer" {
+		return newPeerUDF(taskID, nodeID, d, abortCallback), nil
 	}
 	return s.sink.Create(name, taskID, nodeID, d, abortCallback)
 }
